@@ -24,6 +24,18 @@ enum BRepAlgorithm {
     HYBRID,
 };
 
+#ifdef LIBFIVE_VERIF
+struct BRepSettings;
+/*  Verification hook: named schedule points of a render.  The callback may
+ *  raise settings.cancel (systematic cancellation instead of wall-clock
+ *  timing).  Compiled out unless -DLIBFIVE_VERIF. */
+extern void (*verif_sched_point)(const char* site, const BRepSettings* settings);
+#define LIBFIVE_VERIF_POINT(site, s) \
+    do { if (libfive::verif_sched_point) libfive::verif_sched_point(site, s); } while (0)
+#else
+#define LIBFIVE_VERIF_POINT(site, s) do {} while (0)
+#endif
+
 struct BRepSettings {
 public:
     BRepSettings()
